@@ -55,6 +55,10 @@ type Contract struct {
 	// AtAtomic: ghost variable := expression, executed right after every atomic
 	// step the function performs (a snapshot of shared state at that instant)
 	AtAtomic []*GhostDef
+	// BeforeCall: ghost variable := expression, executed right before every call
+	// of a callee whose name contains Type (a snapshot of the state the callee
+	// starts in); syntax: before_call <callee-substring> ghostvar = expr
+	BeforeCall []*GhostDef
 	// LockInv: monitor invariants - assumed after sync.Mutex.Lock, obliged
 	// before sync.Mutex.Unlock
 	LockInv []*Clause
@@ -147,7 +151,7 @@ func NewContractSet() *ContractSet {
 var clauseKw = map[string]bool{"requires": true, "ensures": true, "ensures!": true, "modifies": true, "panics_if": true,
 	"loop": true, "inline": true, "assumed": true, "mode": true, "arith": true, "func": true, "spec": true, "type": true,
 	"lemma": true, "lemma!": true, "pragma": true, "property": true, "package": true, "ghost": true, "replay": true,
-	"atomic": true, "guarantee": true, "shared": true, "rely": true, "at_atomic": true, "lockinv": true, "defines": true, "on_panic": true,
+	"atomic": true, "guarantee": true, "shared": true, "rely": true, "at_atomic": true, "before_call": true, "lockinv": true, "defines": true, "on_panic": true,
 	"ensures_panic": true, "nonil": true, "pure": true, "witness": true, "end": true, "uses": true, "nosafety": true, "trustframe": true, "maypanic": true, "funczero": true, "purecalls": true}
 
 var nameRe = regexp.MustCompile(`^([A-Za-z_][A-Za-z0-9_.]*):\s+`)
@@ -457,6 +461,24 @@ func (cs *ContractSet) LoadFile(path, pkgPath string) {
 				continue
 			}
 			cur.AtAtomic = append(cur.AtAtomic, &GhostDef{Name: strings.TrimSpace(ll.rest[:eq]), Expr: e, Src: strings.TrimSpace(ll.rest[eq+1:])})
+		case "before_call":
+			// before_call <callee-substring> ghostvar = expr
+			if cur == nil {
+				bad(fmt.Errorf("before_call outside func"))
+				continue
+			}
+			eq := strings.Index(ll.rest, "=")
+			head := strings.Fields(strings.TrimSpace(ll.rest[:max(eq, 0)]))
+			if eq < 0 || len(head) != 2 {
+				bad(fmt.Errorf("before_call <callee-substring> ghostvar = expr"))
+				continue
+			}
+			e, err := ParseCExpr(strings.TrimSpace(ll.rest[eq+1:]))
+			if err != nil {
+				bad(err)
+				continue
+			}
+			cur.BeforeCall = append(cur.BeforeCall, &GhostDef{Name: head[1], Type: head[0], Expr: e, Src: strings.TrimSpace(ll.rest[eq+1:])})
 		case "loop":
 			if cur == nil {
 				bad(fmt.Errorf("loop outside func"))
